@@ -156,3 +156,47 @@ package spine
 //@   loop 0 invariant len: len(newSubscriptionEntries) == Fcnt($k)
 //@   loop 0 invariant elems: forall j int :: 0 <= j && j < $k && kept($s[j]) ==> newSubscriptionEntries[Fcnt(j)] == $s[j]
 //@   loop 0 invariant events: evn == pre(evn) + ($k - Fcnt($k))
+
+// ---------------------------------------------------------------------------------------
+// event bus (C15)
+//   dn, dh, dp   : synchronous handler invocations so far: handler and payload of each
+//   dsp          : number of go statements executed when the synchronous invocation happened
+//   spawnn, ...  : log of go statements (maintained by the verifier)
+//@ ghost dn int
+//@ ghost dh map[int]api.EventHandlerInterface
+//@ ghost dp map[int]api.EventPayload
+//@ ghost dsp map[int]int
+//@ ghost spawnn int
+//@ ghost spawnfn map[int]int
+
+// Assumed contract of an event handler invoked synchronously: it is logged; it may change the
+// world and (un)subscribe handlers, but cannot reach the private snapshot Publish iterates over.
+//@ iface api.EventHandlerInterface.HandleEvent
+//@   ensures dn == old(dn) + 1 && dh == store(old(dh), old(dn), self) && dp == store(old(dp), old(dn), payload) && dsp == store(old(dsp), old(dn), spawnn)
+//@   modifies dn, dh, dp, dsp, world, Events.handlers
+
+//@ func (*events).subscribe
+//@   requires r != nil
+//@   let L0 = r.handlers
+//@   define present = exists j int :: 0 <= j && j < len(L0) && L0[j].Level == level && L0[j].Handler == handler
+//@   ensures[C15] idempotent: old(present) ==> r.handlers == L0
+//@   ensures[C15] appended: !old(present) ==> len(r.handlers) == len(L0) + 1 && (forall j int :: 0 <= j && j < len(L0) ==> r.handlers[j] == old(L0[j])) && r.handlers[len(L0)].Level == level && r.handlers[len(L0)].Handler == handler
+//@   ensures[C15] ok: result == nil
+//@   modifies r.handlers, r.handlers[len(r.handlers)], held
+//@   loop 0 invariant frame: unchangedPre(eventHandlerItem)
+//@   loop 0 invariant none-yet: forall j int :: 0 <= j && j < $k ==> !($s[j].Level == level && $s[j].Handler == handler)
+
+//@ func (*events).unsubscribe
+//@   requires r != nil
+//@   let L0 = r.handlers
+//@   define kept(it) = it.Level != level || it.Handler != handler
+//@   filter F loop 0 src L0 keep kept
+//@   ensures[C15] view: len(r.handlers) == Fcnt(len(L0)) && forall j int :: 0 <= j && j < len(L0) && kept(L0[j]) ==> r.handlers[Fcnt(j)] == old(L0[j])
+//@   ensures[C15] gone: forall m int :: 0 <= m && m < len(r.handlers) ==> kept(r.handlers[m])
+//@   ensures[C15] ok: result == nil
+//@   modifies r.handlers, held
+//@   loop 0 invariant acc: newHandlers == nil || freshPre(newHandlers)
+//@   loop 0 invariant frame: unchangedPre(eventHandlerItem)
+//@   loop 0 invariant len: len(newHandlers) == Fcnt($k)
+//@   loop 0 invariant elems: forall j int :: 0 <= j && j < $k && kept($s[j]) ==> newHandlers[Fcnt(j)] == $s[j]
+//@   loop 0 invariant gone: forall m int :: 0 <= m && m < len(newHandlers) ==> kept(newHandlers[m])
